@@ -13,8 +13,10 @@ This driver builds each Result as a real coba Result (through the constructor wi
 through TransactionResult as a transaction log is read), with the abstract parameter values mapped to ints,
 strings and mixed unsortable hashables (float / str / tuple / None; two of the three encodings per history), replays the calls on it and compares
 after every call: the interaction rows (exact, value by value), the ids and values of the three parameter
-tables, and for raw_learners every reported number (bag per learner level and x, 1e-9).  Python converts and
-compares only; every expectation comes out of TLC."""
+tables, and for raw_learners every reported number (bag per learner level and x, 1e-9).  The parameter columns are
+presented under the namings the spec lists (plain names and names containing / resembling the API's words: the spec
+states that a legal naming never changes an expectation).  Python converts and compares only; every expectation
+comes out of TLC."""
 import json, math, random, zlib, hashlib, multiprocessing, concurrent.futures
 from fractions import Fraction
 from .. import tlc, tracecheck
@@ -23,7 +25,9 @@ FINISH = dict(level="model_checking",
               rule="a case = one TLC-generated history (a Result + a chain of where_fin / where / where_best calls, optionally ending in raw_learners) replayed on real Result objects, or one moving_average input; distinct = distinct histories / inputs")
 
 YSCALE = Fraction(1, 4)          # rewards are y/4: exact binary floats that are not integers
-PCOLS = {"e": ("environment_id", "ea", "eb"), "l": ("learner_id", "la", "lb"), "v": ("evaluator_id", "va")}
+ROLES = {"e": ("ea", "eb"), "l": ("la", "lb"), "v": ("va",)}
+IDCOL = {"e": "environment_id", "l": "learner_id", "v": "evaluator_id"}
+PLAIN = {"ea": "ea", "eb": "eb", "la": "la", "lb": "lb", "va": "va"}
 ICOLS = ("environment_id", "learner_id", "evaluator_id", "index", "reward")
 WORKERS = 12
 KNOWN_CLASSES = ("count-only", "short-after-pairing")
@@ -38,8 +42,10 @@ def conv(a, enc):
 
 class Case:
     """One initial Result of a history, in one value encoding, built one way."""
-    def __init__(self, new, enc, route, rng):
+    def __init__(self, new, enc, route, rng, nm=None):
         self.enc = enc; self.par = new["args"][0]
+        self.nm = nm or PLAIN        # role -> the name the parameter column carries in the real tables
+        self.pcols = {k: (IDCOL[k],) + tuple(self.nm[r] for r in ROLES[k]) for k in ROLES}
         self.rows0 = {}
         for e, l, v, i, y in new["args"][1]: self.rows0[(e, l, v, i)] = float(y * YSCALE)
         self.ids = new["tmax"]
@@ -50,6 +56,13 @@ class Case:
         if kind == "e": return (i, conv(p["ea"][i - 1], self.enc), conv(p["eb"][i - 1], self.enc))
         if kind == "l": return (i, conv(p["la"][i - 1], self.enc), conv(p["lb"][i - 1], self.enc))
         return (i, conv(p["va"][i - 1], self.enc))
+
+    def name(self, col): return self.nm.get(col, col)
+
+    def cols(self, cols, aslist):
+        """a column choice of the spec (roles) as the real call takes it: a name, or a list of names"""
+        if not cols: return None
+        return [self.name(c) for c in cols] if (aslist or len(cols) > 1) else self.name(cols[0])
 
     def colval(self, col, a):
         return a if col in ("environment_id", "learner_id", "evaluator_id", "full_name", "index") else conv(a, self.enc)
@@ -63,13 +76,13 @@ class Case:
             tabs = []
             for kind, ids in (("e", E), ("l", L), ("v", V)):
                 ids = list(ids); self.rng.shuffle(ids)
-                tabs.append([list(PCOLS[kind])] + [list(self.prow(kind, i)) for i in ids])
+                tabs.append([list(self.pcols[kind])] + [list(self.prow(kind, i)) for i in ids])
             return Result(tabs[0], tabs[1], tabs[2], [list(ICOLS)] + rows)
         # as a transaction log is written and read back: TransactionEncode -> text lines -> TransactionDecode -> TransactionResult
         from coba.results import TransactionEncode, TransactionDecode
         trx = [["T0", {}]]
         for kind, tag, ids in (("e", "T1", E), ("l", "T2", L), ("v", "T3", V)):
-            for i in ids: trx.append([tag, i, dict(zip(PCOLS[kind][1:], self.prow(kind, i)[1:]))])
+            for i in ids: trx.append([tag, i, dict(zip(self.pcols[kind][1:], self.prow(kind, i)[1:]))])
         by = {}
         for e, l, v, i, y in sorted(rows): by.setdefault((e, l, v), []).append({"reward": y})
         keys = list(by); self.rng.shuffle(keys)
@@ -82,11 +95,6 @@ class Case:
         return sorted((e, l, v, i, self.rows0[(e, l, v, i)]) for e, l, v, n in evset for i in range(1, n + 1))
 
 
-def colarg(cols, aslist):
-    if not cols: return None
-    return list(cols) if (aslist or len(cols) > 1) else cols[0]
-
-
 def got_rows(res):
     cols = res.interactions[list(ICOLS)]
     return sorted(zip(*cols)) if len(res.interactions) else []
@@ -96,17 +104,17 @@ def check_tables(case, res, step):
     """ids within the spec's bounds (exact when `full`), no parameter value changed"""
     ref = [sorted(ids) for ids in step["tmin"]]          # the ids the interaction rows reference
     for k, (kind, tab) in enumerate((("e", res.environments), ("l", res.learners), ("v", res.evaluators))):
-        idc = PCOLS[kind][0]
+        idc = IDCOL[kind]
         ids = list(tab[idc]) if len(tab) else []
         if len(set(ids)) != len(ids): return "tables", "%s table lists an id twice: %r" % (idc, ids)
         missing = [i for i in ref[k] if i not in ids]
         if missing: return "tables:dangling", "%s %r referenced by interaction rows but absent from its parameter table %r" % (idc, missing, sorted(ids))
-        extra = [i for i in ids if i not in step["tmax"][k]]
-        if extra: return "tables", "%s table holds ids %r that the input did not have" % (idc, extra)
         if step["full"] and sorted(ids) != ref[k]:
             return "tables:unreferenced", "%s table holds %r but interaction rows reference exactly %r (every parameter row of the input was referenced)" % (idc, sorted(ids), ref[k])
+        extra = [i for i in ids if i not in step["tmax"][k]]
+        if extra: return "tables", "%s table holds ids %r that the input did not have" % (idc, extra)
         if len(tab):
-            got = {r[0]: tuple(r) for r in zip(*tab[list(PCOLS[kind])])}
+            got = {r[0]: tuple(r) for r in zip(*tab[list(case.pcols[kind])])}
             for i, r in got.items():
                 if r != case.prow(kind, i) or any(type(a) is not type(b) for a, b in zip(r, case.prow(kind, i))):
                     return "tables:values", "%s row %r, was %r" % (idc, r, case.prow(kind, i))
@@ -146,10 +154,11 @@ def check_raw(case, table, step, l_aslist, x_aslist):
     return None
 
 
-def replay(h, enc, route, variant, rng):
+def replay(h, enc, route, variant, rng, nm=None):
     """Replays one history.  Returns None | (signature, what) ; 'alt' outcomes end the history silently."""
     from coba.exceptions import CobaException
-    case = Case(h[0], enc, route, rng)
+    case = Case(h[0], enc, route, rng, nm)
+    colarg = case.cols
     try:
         cur = case.build()
     except Exception as ex:
@@ -161,7 +170,9 @@ def replay(h, enc, route, variant, rng):
     for k, step in enumerate(h[1:], 1):
         op, args = step["op"], step["args"]
         flagged = [f for f in KNOWN_CLASSES if f in step["flags"]]
-        def sig(s): return ("pairing:" + "+".join(flagged)) if flagged else s
+        def sig(s):
+            if s.startswith("best:p-default"): return "best:p-default"      # one defect class, whatever way it shows (raises / rows / tables)
+            return ("pairing:" + "+".join(flagged)) if flagged else s
         call = op
         try:
             if op == "fin":
@@ -173,12 +184,30 @@ def replay(h, enc, route, variant, rng):
             elif op == "where":
                 col, arg = args
                 if col == "index": kw = {"index": {"<=": arg}}
-                else: kw = {col: [case.colval(col, a) for a in arg]}
+                else: kw = {case.name(col): [case.colval(col, a) for a in arg]}
                 nxt = cur.where(**kw); call = "where(%r)" % (kw,)
             elif op == "best":
                 lc, pc, nb = args
-                nxt = cur.where_best(colarg(lc, aslist), colarg(pc, aslist), "reward", nb or None)
-                call = "where_best(l=%r, p=%r, n=%r)" % (colarg(lc, aslist), colarg(pc, aslist), nb or None)
+                if pc:
+                    nxt = cur.where_best(colarg(lc, aslist), colarg(pc, aslist), "reward", nb or None)
+                    call = "where_best(l=%r, p=%r, n=%r)" % (colarg(lc, aslist), colarg(pc, aslist), nb or None)
+                else:       # p not given: documented to default to full_p ('environment_id')
+                    call = "where_best(l=%r, n=%r)" % (colarg(lc, aslist), nb or None)
+                    op = "best:p-default"
+                    nxt = cur.where_best(l=colarg(lc, aslist), y="reward", n=nb or None)
+            elif op == "wherei":
+                col, o, val = args
+                kw = {col: {o: float(val * YSCALE) if col == "reward" else val}}
+                call = "where(%r)" % (kw,)
+                nxt = cur.where(**kw)
+                exp = sorted((e, l, v, i, case.rows0[(e, l, v, i)]) for e, l, v, i in step["raw"])
+                got = got_rows(nxt)
+                if got != exp:
+                    return ("wherei:rows", "step %d %s keeps rows %r, expected %r" % (k, call, [r[:4] for r in got], [r[:4] for r in exp]))
+                bad = check_tables(case, nxt, step)
+                if bad: return ("wherei:%s" % bad[0], "step %d %s on evaluations (e,l,v,len) %r keeps rows (e,l,v,index) %r: %s" % (k, call, h[k - 1]["ev"], [r[:4] for r in got], bad[1]))
+                if got_rows(cur) != case.exp_rows(h[k - 1]["ev"]): return ("wherei:mutates", "step %d %s changed the Result it was called on" % (k, call))
+                return None
             elif op == "raw":
                 x, lc, pc, span = args
                 xa = "index" if x == ["index"] else colarg(x, aslist)
@@ -210,9 +239,12 @@ def replay(h, enc, route, variant, rng):
             return (sig("%s:rows" % op), "step %d %s %s; input evaluations (e,l,v,len) %r, params %s" % (k, call, what, h[k - 1]["ev"], json.dumps(case.par)))
         bad = check_tables(case, nxt, step)
         if bad: return (sig("%s:%s" % (op, bad[0])), "step %d %s: %s" % (k, call, bad[1]))
-        if got_rows(cur) != case.exp_rows(h[k - 1]["ev"]): return ("%s:mutates" % op, "step %d %s changed the Result it was called on" % (k, call))
+        if got_rows(cur) != case.exp_rows(h[k - 1]["ev"]): return (sig("%s:mutates" % op), "step %d %s changed the Result it was called on" % (k, call))
         cur = nxt
     return None
+
+
+NAMINGS = []        # the namings of ResultFin.tla (printed by its ASSUME), set before the workers are forked
 
 
 def _job(job):
@@ -223,8 +255,9 @@ def _job(job):
     for i, enc in enumerate(encs):
         route = ("ctor", "log")[(hk // 2 + i) % 2]
         variant = (hk // 4 + i) % 4
-        bad = replay(h, enc, route, variant, rng)
-        if bad: return (bad, enc, route, variant)
+        nm = NAMINGS[(hk // 16 + 3 * i) % len(NAMINGS)] if NAMINGS else None
+        bad = replay(h, enc, route, variant, rng, nm)
+        if bad: return (bad, enc, route, variant, nm)
     return None
 
 
@@ -250,7 +283,8 @@ def plan(ctx):
     """(name, cfg substitutions, simulate, minimum number of histories)"""
     base_ma = {'Mode = "res"': 'Mode = "ma"'}
     PAT = {'LenMode = "all"': 'LenMode = "pat"'}
-    WIDE = {"FinLPs <- LPMid": "FinLPs <- LPAll", "RawArgs <- RawFew": "RawArgs <- RawMid", "BestArgs <- BestFew": "BestArgs <- BestAll", "WhereArgs <- WhereFew": "WhereArgs <- WhereAll"}
+    WIDE = {"FinLPs <- LPMid": "FinLPs <- LPAll", "RawArgs <- RawFew": "RawArgs <- RawMid", "BestArgs <- BestFew": "BestArgs <- BestAll", "WhereArgs <- WhereFew": "WhereArgs <- WhereAll",
+            "WhereIArgs <- WhereIFew": "WhereIArgs <- WhereIAll"}
     NODESIGN = {"INVARIANT FinDesign\n": "", "INVARIANT RawDesign\n": ""}
     def S(*ds):
         out = {}
@@ -289,7 +323,7 @@ def plan(ctx):
                                 "TabFull <- Bools": "TabFull <- OnlyF"}), None, 50000),
         ("chains-sim", S(PAT, WIDE, NODESIGN, {"Dims <- D221": "Dims <- DAll", "MaxOps = 1": "MaxOps = 5", "MaxLen = 2": "MaxLen = 4", "Pars <- P2": "Pars <- P4",
                                                "MaxMissing = 9": "MaxMissing = 4", "FinNs <- N2": "FinNs <- N4", "RawArgs <- RawMid": "RawArgs <- RawAll",
-                                               "Salts = {0}": "Salts = {0, 1, 2}"}), dict(num=30), 20000),
+                                               "Salts = {0}": "Salts = {0, 1, 2}"}), dict(num=24), 20000),
     ]
 
 
@@ -300,7 +334,7 @@ def run(ctx):
     if ctx.replay:      # ./check C18 --replay replays/C18/<sha>.json : one recorded case against the current tree
         c = json.load(open(ctx.replay))["case"]
         if "ma" in c: bad = ma_case(c, 0) or ma_case(c, 1)
-        else: bad = replay(c["history"], c["enc"], c["route"], c["variant"], random.Random(ctx.seed))
+        else: bad = replay(c["history"], c["enc"], c["route"], c["variant"], random.Random(ctx.seed), c.get("naming"))
         ctx.case("replay"); ctx.traces += 1
         if bad: ctx.violation(bad[0], bad[1], c)
         return
@@ -313,11 +347,21 @@ def run(ctx):
         r.out = ""
         return r
     items = plan(ctx)
-    # replay workers are forked once, before any thread exists
+    # the first (small) run also tells the namings of the parameter columns (ASSUME PrintT in ResultFin.tla)
+    first = model(items[0])
+    global NAMINGS
+    NAMINGS = sorted((j["namings"] for j in first.json if isinstance(j, dict) and "namings" in j), key=lambda n: json.dumps(n, sort_keys=True))
+    NAMINGS = sorted(NAMINGS[0], key=lambda n: json.dumps(n, sort_keys=True)) if NAMINGS else []
+    if len(NAMINGS) < 5 or PLAIN not in NAMINGS: raise RuntimeError("ResultFin.tla printed no namings")
+    ctx.extra["parameter_column_namings"] = NAMINGS
+    # replay workers are forked once, before any thread exists (they inherit NAMINGS)
     pool = multiprocessing.get_context("fork").Pool(WORKERS)
     # TLC works on the next configuration while the histories of the current one are replayed
     ex = concurrent.futures.ThreadPoolExecutor(1)
-    nxt = ex.submit(model, items[0])
+    class _Done:
+        def __init__(self, r): self.r = r
+        def result(self): return self.r
+    nxt = _Done(first)
     for k, (name, sub, sim, least) in enumerate(items):
         r = nxt.result()
         nxt = ex.submit(model, items[k + 1]) if k + 1 < len(items) else None
@@ -349,14 +393,15 @@ def run(ctx):
         # histories are independent: replayed in forked workers, results consumed in sorted order (deterministic)
         for key, out in zip(keys, pool.imap(_job, jobs, chunksize=200)):
             if out:
-                bad, enc, route, variant = out
-                ctx.violation(bad[0], "%s [values as %s, Result built via %s]" % (bad[1], enc, route), dict(history=hists[key], enc=enc, route=route, variant=variant))
+                bad, enc, route, variant, nm = out
+                ctx.violation(bad[0], "%s [values as %s, Result built via %s, parameter columns named %s]" % (bad[1], enc, route, json.dumps(nm)),
+                              dict(history=hists[key], enc=enc, route=route, variant=variant, naming=nm))
         del jobs, r
         total += len(hists)
         mid = hists[sorted(hists)[len(hists) // 2]]
         ctx.sample([(s["op"], s["args"] if s["op"] != "new" else s["args"][0], s["ev"]) for s in mid], limit=5)
     pool.close(); pool.join(); ex.shutdown()
-    for op in ("fin", "where", "best", "raw"):
+    for op in ("fin", "where", "wherei", "best", "raw"):
         if not ops.get(op): raise RuntimeError("no history contains a %s step" % op)
     ctx.traces += total
     ctx.extra["steps_by_call"] = ops; ctx.extra["histories_with_two_accepted_readings"] = alts
@@ -365,7 +410,8 @@ def run(ctx):
         "l and p are given together or not at all (where_fin(l=..) without p raises TypeError in _group_p and is outside the property's domain)",
         "where_fin(n=k,l,p): the property does not fix whether short evaluations are dropped before or after pairing; both readings whose result is again paired are accepted",
         "referential consistency 'every parameter row is referenced' is demanded of an output only when it held of the input (DESIGN.md C18 (i))",
-        "where_best is replayed only where the best learner of every (p,l) cell is unique (ties are not specified); where() arguments are lists of values (in) or index<=k",
+        "where_best is replayed only where the best learner of every (p,l) cell is unique (ties are not specified); where() arguments are lists of values (in), index<=k, or - ending the history - a comparison on reward / index",
+        "parameter columns carry any of the namings of ResultFin.tla (plain names and names containing / resembling the API's words such as fold_index, indexes, environment_id2, learner, full_names, x, p, span), as a string or a one-element list; the names the four tables reserve (environment_id, learner_id, evaluator_id, index, reward, full_name) are not used for parameter columns",
         "raw_learners bags are compared per (level, x) without order; spans >= 1, weights positive, 'exp' with a span; floats compared to 1e-9 against exact rationals",
         "parameter values: ints, strings, and a mixed unsortable set {float, str, tuple, None}; numpy / pandas are not installed (to_pandas not exercised)",
     ]
